@@ -93,6 +93,10 @@ ASSUMPTIONS = [
     "function, CustomResolver with a symmetric function); an asymmetric user function could legitimately diverge",
     "KVStore capacity is unlimited (FIFO eviction under reordering is not explored)",
     "ReplicatedStore deletes are treated as writes of 'absent' (class rs-delete); puts-only runs are class rs-put",
+    "in the 'alphabet' share of the runs (class suffix /aba) every key has two values written in A-B-A patterns incl. re-writes of "
+    "the held value; the ack/read oracles then attribute a value to its FIRST occurrence (weaker, never stricter), and the "
+    "quiescence oracle needs no attribution: every replica holds, per key, the value of the last write in the primary's/head's "
+    "apply order (multi-leader: all replicas equal)",
     "loss/partition classes judge only the ack-implies-applied and read-committed relations, never convergence",
 ]
 EXPECTED_PROBES = [
@@ -105,8 +109,9 @@ EXPECTED_PROBES = [
     "probe.stale_write_skipped", "probe.ack_reflected_by_later_write",
     "probe.craq_read_forwarded_after_recheck", "probe.craq_commit_left_key_dirty",
     "probe.ml_first_tick_found_leader_empty", "probe.ml_idle_ticks_between_bursts", "probe.ml_posthoc_rounds",
+    "probe.aba_value_restored", "probe.aba_same_value_rewritten", "probe.aba_restore_overlapped_put",
 ]
-SHRINK_SKIP = ("scheme", "klass", "mode", "resolver", "rcl", "wcl", "ae_style")
+SHRINK_SKIP = ("scheme", "klass", "mode", "resolver", "rcl", "wcl", "ae_style", "valmode")
 
 MAX_SWEEPS = 10
 
@@ -224,6 +229,13 @@ def gen(rng: random.Random, tier: str) -> dict:
     else:
         times = _write_times(rng, n_writes, scale)
     nkeys = rng.choice([1, 1, 2, 3, 5])
+    # value alphabet: unique values by default (attribution for the ack/read oracles); in a share of the runs every key
+    # has only two values written in A-B-A patterns, including re-writes of the value the key already holds
+    aba = klass not in ("distinct", "craq-avoid") and rng.random() < 0.22
+    if aba:
+        nkeys = rng.choice([1, 1, 2])
+        sc["valmode"] = "alphabet"
+    last_val: dict = {}
     ops = []
     for i, t in enumerate(times):
         key = f"d{i}" if klass == "distinct" else f"k{rng.randrange(nkeys)}"
@@ -234,7 +246,13 @@ def gen(rng: random.Random, tier: str) -> dict:
                 t = ops[-1]["t"] if rng.random() < 0.5 else t
                 key = ops[-1]["k"] if klass != "distinct" else key
                 node = (ops[-1]["node"] + 1 + rng.randrange(sc["n"] - 1)) % sc["n"]
-        ops.append({"op": "w", "t": t, "node": node, "k": key, "v": f"v{i}"})
+        val = f"v{i}"
+        if aba:
+            prev = last_val.get(key)
+            letter = "a" if prev is None else (prev if rng.random() < 0.3 else ("b" if prev == "a" else "a"))
+            last_val[key] = letter
+            val = f"{key}:{letter}"
+        ops.append({"op": "w", "t": t, "node": node, "k": key, "v": val})
     span = (times[-1] if times else 0.0)
     # reads (chain only)
     if scheme == "chain":
@@ -254,7 +272,7 @@ def gen(rng: random.Random, tier: str) -> dict:
                 ops.append({"op": "r", "t": round(t, 6), "node": node, "k": wkeys[j]})
     ops.sort(key=lambda o: (o["t"], 0 if o["op"] == "w" else 1))
     sc["ops"] = ops
-    sc["klass"] = f"{scheme}-{klass}"
+    sc["klass"] = f"{scheme}-{klass}" + ("/aba" if aba else "")
     sc["faults"] = []
     if klass == "faulty":
         horizon = span + 4 * n_nodes * (dmax + max(sc["wlat"])) + scale
@@ -300,7 +318,7 @@ def gen(rng: random.Random, tier: str) -> dict:
         elif style == "posthoc":
             last = max(o["t"] for o in ops)
             sc["ae_phase"] = [round(last + dmax + 2 * max(sc["wlat"]) + rng.random() * iv, 6) for _ in range(sc["n"])]
-        sc["klass"] = f"ml-{klass}/{style}"
+        sc["klass"] = f"ml-{klass}/{style}" + ("/aba" if aba else "")
     return sc
 
 
@@ -357,8 +375,10 @@ def _validate(sc):
         if o.get("op") not in ("w", "r", "d") or "k" not in o or not isinstance(o.get("t"), (int, float)) or o["t"] < 0:
             raise InvalidScenario("bad op")
         if o["op"] == "w":
-            if "v" not in o or o["v"] in vals:
+            if "v" not in o or (o["v"] in vals and sc.get("valmode") != "alphabet"):
                 raise InvalidScenario("values must be unique")
+            if sc.get("valmode") == "alphabet" and not str(o["v"]).startswith(f"{o['k']}:"):
+                raise InvalidScenario("alphabet values are per key")
             vals.add(o["v"])
         if scheme != "rs":
             if not isinstance(o.get("node"), int) or not 0 <= o["node"] < nn:
@@ -755,7 +775,14 @@ def run(sc: dict) -> dict:
             if ctx.acked < ctx.n_writes:
                 c["obs.unacked_writes_noloss"] = ctx.n_writes - ctx.acked
             judged_conv = True
-            if not _maps_equal(stores):
+            if sc.get("valmode") == "alphabet":
+                # repeated values: no attribution.  Every replica must hold, per key, the value of the LAST write in the
+                # primary's/head's order, and never a value that was not written to that key.
+                bad = _last_write_divergence(ctx)
+                if bad is not None:
+                    diverged = True
+                    sig, msg = bad
+            elif not _maps_equal(stores):
                 diverged = True
                 sig, msg = _pbchain_divergence(ctx)
         elif scheme == "rs":
@@ -785,6 +812,14 @@ def run(sc: dict) -> dict:
     # counters / probes
     if obs.overtaken_same_key:
         c["probe.same_key_overtake"] = 1
+    if sc.get("valmode") == "alphabet":
+        for k, vs in ctx.writes_by_key.items():
+            if any(vs[j] == vs[j - 2] != vs[j - 1] for j in range(2, len(vs))):
+                c["probe.aba_value_restored"] = 1
+            if any(vs[j] == vs[j - 1] for j in range(1, len(vs))):
+                c["probe.aba_same_value_rewritten"] = 1
+        if any(st.overlapped_puts for st in stores[1:]):
+            c["probe.aba_restore_overlapped_put"] = 1  # a replica started a put for a key while another put for it was in flight
     if obs.commit_left_key_dirty:
         c["probe.craq_commit_left_key_dirty"] = 1
     if obs.overtaken_any:
@@ -846,6 +881,27 @@ def run(sc: dict) -> dict:
 # --------------------------------------------------------------------------------------------
 # quiescence analyses
 # --------------------------------------------------------------------------------------------
+
+def _last_write_divergence(ctx):
+    stores, nodes = ctx.m["stores"], ctx.m["nodes"]
+    for key in sorted(ctx.writes_by_key):
+        seq_log = stores[0].applied_values(key)
+        if not seq_log:
+            continue
+        want = seq_log[-1]
+        written = set(ctx.writes_by_key[key])
+        for i, st in enumerate(stores):
+            got = st.snapshot().get(key)
+            if got == want:
+                continue
+            cls = type(nodes[i]).__name__
+            cause = "holds-superseded-value" if got in written else ("key-missing" if got is None else "phantom-value")
+            return (f"C17/converge/{cls}/repeated-values/{cause}",
+                    f"at quiescence (writes stopped, all messages delivered, no loss) the last write to {key} in {nodes[0].name}'s order is "
+                    f"{want!r} but {nodes[i].name} holds {got!r}; values written to {key}: {ctx.writes_by_key[key]}; apply order at "
+                    f"{nodes[0].name}: {seq_log}, at {nodes[i].name}: {st.applied_values(key)}")
+    return None
+
 
 def _pbchain_divergence(ctx):
     stores, nodes = ctx.m["stores"], ctx.m["nodes"]
